@@ -114,6 +114,46 @@ def check(ctx):
     if P.has_cls('Sink'):
         c = P.cls('Sink')
         nw['sink-count'] = dirty_pairing(ctx, o, c, '_received_parts_count', False, 'received_part', entries=dv.entries_of(P, c), opaque=())
+    # failure occurrence <-> device_failure (exactly one record per _fail, whatever the machine state; none elsewhere)
+    if P.has_cls('PartProcessor'):
+        c = P.cls('PartProcessor')
+        NF = Normalizer(P, c)
+        nfail = 0
+        for e in sorted(dv.entries_of(P, c)):
+            g = ctx.graph(c, e)
+
+            def fhook(an, n, before, after, g=g):
+                st = after
+                for cl in calls_at(g, n):
+                    if call_attr(cl) == 'add_datapoint' and cl.args and isinstance(cl.args[0], ast.Constant) and cl.args[0].value == 'device_failure':
+                        okp = len(cl.args) == 3 and ast.unparse(cl.args[1]) == 'self.name' and isinstance(cl.args[2], ast.Tuple) and len(cl.args[2].elts) == 2 \
+                            and NF.norm(cl.args[2].elts[0], FrameEnv(n.frame)).is_({'NOW': 1})
+                        st = st.with_flag('failrec2' if 'failrec' in st.flags else 'failrec')
+                        if not okp:
+                            st = st.with_flag('failrec-bad')
+                return st
+            an = Analysis(P, g, ['_part', '_output', '_is_shut_down'])
+            an.node_hooks.append(fhook)
+            for sd, pv in (('T', 'N'), ('T', 'S'), ('F', 'N'), ('F', 'S')):
+                s0 = State({'_part': pv, '_output': 'N', '_is_shut_down': sd})
+                for p_ in dv.param_splits(P, c, e, g):
+                    s1 = s0.copy()
+                    s1.locals.update(p_)
+                    res = ctx.explore(an, [s1])
+                    for st in res.exits():
+                        o.count()
+                        n_rec = 2 if 'failrec2' in st.flags else (1 if 'failrec' in st.flags else 0)
+                        want = 1 if e == '_fail' else 0
+                        if e == '_fail':
+                            nfail += 1
+                            o.witness(('_fail', sd, pv))
+                        if n_rec != want or 'failrec-bad' in st.flags:
+                            state = f'machine {"already shut down" if sd == "T" else "running"}, {"a part" if pv == "S" else "no part"} in process'
+                            o.fail(P, f'PartProcessor.{e}', "add_datapoint('device_failure', self.name, (now, lost part id))",
+                                   (f'a failure ({state}) writes {n_rec} device_failure record(s); every failure must be logged exactly once with the current time' if e == '_fail'
+                                    else f'{e} writes a device_failure record although no failure happened'), file=c.mod.path, line=dv.entry_fn(P, c, e).lineno,
+                                   path=res.path_lines(g.exit, st))
+        nw['device_failure'] = nfail
     o.stats = {'entry_points_with_a_write': nw}
     for k, v in nw.items():
         o.require(v >= 1, f'no entry point reaches a state change of kind {k}; the pairing rule would pass vacuously')
